@@ -45,8 +45,8 @@ def isPunct (c : Char) : Bool :=
   c.toNat == 0xA1 || c.toNat == 0xA7 || c.toNat == 0xB6 || c.toNat == 0xB7 || c.toNat == 0xBF
 
 /-- `unicode_str_width` of a one-character grapheme (unicode-width 0.1.14 `str` width: LF is 0, every
-other character up to U+00A0 is 1, narrow characters are 1). -/
-def cw (c : Char) : Nat := if c == '\n' then 0 else 1
+other character up to U+00A0 is 1, the soft hyphen U+00AD is 0, narrow characters are 1). -/
+def cw (c : Char) : Nat := if c == '\n' || c.toNat == 0xAD then 0 else 1
 
 /-- `graphemes_width` (string.rs:372). -/
 def width : List Char → Nat
@@ -139,7 +139,7 @@ def scanRight (trimEnd : Bool) : List Char → Nat → RightScan
     else if notWsExceptLf g then .stop i
     else scanRight trimEnd r (i + 1)
 
-/-- The closure `break_at` (string.rs:225-266); `input[index]` is included in the line. -/
+/-- The closure `break_at` (string.rs:225-274); `input[index]` is included in the line. -/
 def breakAt (trimEnd : Bool) (input : List Char) (index : Nat) : Snippet :=
   let pre := input.take (index + 1)
   let indexMinusWs := (rposition notWsExceptLf pre).getD index
@@ -151,8 +151,9 @@ def breakAt (trimEnd : Bool) (input : List Char) (index : Nat) : Snippet :=
       if trimEnd then .lineEnd (input.take (indexMinusWs + 1)) (indexPlusWs + 1)
       else .lineEnd (input.take (indexPlusWs + 1)) (indexPlusWs + 1)
     | .exhausted =>
+      -- `only_whitespaces_follow`: with `trim_end = false` the rest is significant and stays here
       if trimEnd then .lineEnd (input.take (indexMinusWs + 1)) (index + 1)
-      else .lineEnd (input.take (index + 1)) (index + 1)
+      else .endOfInput input
   -- only the first line feed of `input[0..=index]` is looked at (`break` after it)
   match position isNl pre with
   | some i =>
@@ -179,7 +180,8 @@ def isPartOfType (input : List Char) (pos : Nat) : Bool :=
 /-- `is_valid_linebreak` (string.rs:340). -/
 def isValidLinebreak (input : List Char) (pos : Nat) : Bool :=
   let g := input.getD pos ' '
-  isWs g || (isPunct g && !isPartOfType input pos)
+  -- a backslash escapes what follows it: never a break point
+  isWs g || ((isPunct g && g != '\\') && !isPartOfType input pos)
 
 /-- `(0..n).rev().skip_while(|pos| !is_valid_linebreak(input, *pos)).next()` -/
 def lastValidBelow (input : List Char) : Nat → Option Nat
@@ -216,10 +218,7 @@ def breakString (maxWidth : Nat) (trimEnd : Bool) (lineEnd : List Char) (input :
     breakAt trimEnd input (mwi - 1)
   else
     match detectUrl input mwi with
-    | some urlEnd =>
-      let indexPlusWs := urlEnd + (position notWsExceptLf (input.drop (urlEnd + 1))).getD 0
-      if trimEnd then .lineEnd (input.take (urlEnd + 1)) (indexPlusWs + 1)
-      else .lineEnd (input.take (indexPlusWs + 1)) (indexPlusWs + 1)
+    | some urlEnd => breakAt trimEnd input urlEnd
     | none => searchBreak trimEnd input mwi
 
 /-! ## the line-continuation regex `([^\\](\\\\)*)\\[\n\r][[:space:]]*` replaced by `$1` -/
@@ -471,5 +470,24 @@ def undecorate (lineStart : List Char) (text : List Char) : List Char :=
 /-- The words of a wrapped comment text. -/
 def commentWords (lineStart : List Char) (text : List Char) : List (List Char) :=
   words (undecorate lineStart text)
+
+/-- `vs` are the words `ws` in order, except that a word may be cut into several pieces, every piece
+but the last ending in a punctuation character (`cur` is what is left of the word being matched). -/
+def refinesGo : List Char → List (List Char) → List (List Char) → Bool
+  | cur, ws, [] => cur.isEmpty && ws.isEmpty
+  | cur, ws, v :: vs =>
+    if cur.isEmpty then
+      match ws with
+      | [] => false
+      | w :: ws' =>
+        if v == w then refinesGo [] ws' vs
+        else if v.isPrefixOf w && (v.getLast?.map isPunct == some true) then refinesGo (w.drop v.length) ws' vs
+        else false
+    else
+      if v == cur then refinesGo [] ws vs
+      else if v.isPrefixOf cur && (v.getLast?.map isPunct == some true) then refinesGo (cur.drop v.length) ws vs
+      else false
+
+def refinesWords (ws vs : List (List Char)) : Bool := refinesGo [] ws vs
 
 end RF.StringFmt
